@@ -9,7 +9,7 @@ import netfam
 ID = "C03"
 DRIVER = "node"
 MODEL_FILES = ["Model/Base.v", "Model/Parse.v", "Model/Node.v", "Model/Sched.v", "Model/Net.v"]
-THEOREMS = ["C03_set_value_notifies", "C03_set_value_refused_silent", "C03_remove_value_notifies", "C03_inc_value_notifies", "C03_inc_value_refused_silent", "C03_nsubs_watch_key", "C03_nsubs_unwatch_key", "C03_nsubs_unwatch_all", "C03_inbox_sends", "C03_handle_set_notifies", "C03_handle_replicate_set_notifies", "C03_handle_remove_notifies", "C03_handle_increment_notifies", "C03_handle_watch_isolated", "C03_handle_unwatch_isolated", "C03_handle_unwatch_all_isolated", "C03_disconnect_subs", "C03_disconnect_quiet", "C03_final_view_last", "C03_final_view_highest", "C03_stale_subscription_after_db_switch", "C03_sched_watch_release", "C03_sched_unwatch_release", "C03_sched_other_release_keeps_watch", "C03_sched_other_session_release", "C03_sched_no_lost_subscription", "C03_sched_no_lost_subscription_closed", "C03_sched_schedule_full"]
+THEOREMS = ["C03_set_value_notifies", "C03_set_value_refused_silent", "C03_remove_value_notifies", "C03_inc_value_notifies", "C03_inc_value_refused_silent", "C03_nsubs_watch_key", "C03_nsubs_unwatch_key", "C03_nsubs_unwatch_all", "C03_inbox_sends", "C03_handle_set_notifies", "C03_handle_replicate_set_notifies", "C03_handle_remove_notifies", "C03_handle_increment_notifies", "C03_handle_watch_isolated", "C03_handle_unwatch_isolated", "C03_handle_unwatch_all_isolated", "C03_disconnect_subs", "C03_disconnect_quiet", "C03_final_view_last", "C03_final_view_highest", "C03_stale_subscription_after_db_switch", "C03_sched_watch_release", "C03_sched_unwatch_release", "C03_sched_other_release_keeps_watch", "C03_sched_other_session_release", "C03_sched_no_lost_subscription", "C03_sched_no_lost_subscription_closed", "C03_sched_schedule_full", "C03_tcp_set_stream", "C03_ws_frame_set_stream", "C03_tcp_refused_stream", "C03_arbiter_refusal_reaches_the_arbiter", "C03_term_tcp_version_error", "C03_term_ws_version_error", "C03_conn_closed_keeps_others", "C03_net_run_subscription_stable", "C03_tcp_watch_set_example"]
 STRENGTH = {t: "proof-unbounded" for t in THEOREMS}
 RULE = ("1-2 writer sessions and 1-2 subscriber sessions issuing watch / unwatch / unwatch-all / disconnect (and reconnect) on the same "
         "and on different keys, over set, set-safe (accepted and refused), increment and remove, replicated writes included; exhaustive "
